@@ -588,6 +588,46 @@ def check_gb_pair(res, g, m, c1, c2, count=True, projs=None, fresh=True):
         res.violation(case, "two groups", "one group", gb_cause_split(c1, c2, g, m))
 
 
+def _gb_forms(keys):
+    """The documented ways of writing a list of at most one key path: a string, or a container."""
+    keys = tuple(keys)
+    if len(keys) == 1:
+        return [("str", keys[0]), ("list", [keys[0]])]
+    if len(keys) == 0:
+        return [("tuple", ()), ("list", []), ("set", set())]
+    return []
+
+
+def check_gb_forms(res, g, m, contexts):
+    """group_by / merge written as a string or as another container of strings mean the same as the
+    tuples: the same partition of the family (differential)."""
+    def partition(gb):
+        for i, c in enumerate(contexts):
+            gb.fill((i, copy.deepcopy(c)))
+        return sorted(tuple(v[0] for v in grp) for grp in gb.groups.values())
+    try:
+        want = partition(make_groupby(g, m))
+    except Exception:  # noqa: judged by check_gb_flow
+        return
+    for gname, gform in [("tuple", tuple(g))] + _gb_forms(g):
+        for mname, mform in [("tuple", tuple(m))] + _gb_forms(m):
+            if gname == "tuple" and mname == "tuple":
+                continue
+            if gform == "" and mform == "":
+                continue      # the documented default: everything in one group
+            case = {"law": "groupby-forms", "group_by": list(g), "merge": list(m),
+                    "forms": [gname, mname], "contexts": contexts}
+            try:
+                got = partition(lena.flow.GroupBy(group_by=copy.copy(gform), merge=copy.copy(mform)))
+            except Exception as e:  # noqa
+                got = "raised " + type(e).__name__
+            res.case(nontrivial=len(want) >= 2, outcome=("forms", gname, mname, repr(got)[:80]))
+            if got != want:
+                res.violation(case, got, want,
+                              {"law": "groupby-forms", "group_by_form": gname, "merge_form": mname,
+                               "root_grouped": "" in g})
+
+
 def check_gb_flow(res, g, m, contexts, order="sorted", count=True, name="family"):
     """One GroupBy filled with the whole family twice (second pass reversed, keys re-ordered) and
     three values without a context."""
@@ -948,6 +988,8 @@ def run_groupby(res, tier, fixed):
         res.count("groupby_distinct_leaf_projections", len(set(pr[0] for pr in projs)))
         for order in ("sorted", "reversed"):
             check_gb_flow(res, g, m, family, order=order)
+        if len(g) <= 1 and len(m) <= 1:
+            check_gb_forms(res, g, m, family[:24])
         for i1, c1 in enumerate(family):
             for i2, c2 in enumerate(family):
                 check_gb_pair(res, g, m, c1, c2, projs=(projs[i1], projs[i2]), fresh=False)
@@ -983,6 +1025,9 @@ def replay(case):
     elif law == "groupby-pair":
         check_gb_pair(res, tuple(case["group_by"]), tuple(case["merge"]), case["contexts"][0],
                       case["contexts"][1])
+    elif law == "groupby-forms":
+        check_gb_forms(res, tuple(case["group_by"]), tuple(case["merge"]), case["contexts"])
+        return [v for v in result_violations(res) if v["case"].get("forms") == case.get("forms")]
     elif law == "groupby-flow":
         order = case.get("order", "sorted")
         g, m = tuple(case["group_by"]), tuple(case["merge"])
